@@ -204,8 +204,10 @@ def run_context_stream(ctx, res, want, maxlen):
         for k2 in kinds:
             sample = seqs if len(seqs) <= 90 else rng.sample(seqs, 90)
             for seq in sample:
-                rules1 = [[BASIC[o][0], str(i), BASIC[o][1]] for i, o in enumerate(seq)]
-                rules2 = [[BASIC[o][0], str(i), BASIC[o][1]] for i, o in enumerate(reversed(seq))] + [["k", "x", "maybe"]]
+                # the two policies differ in length and content (p may be empty while p2 is not, and the other way round)
+                half = seq[: len(seq) // 2] if (len(seq) + kinds.index(k1)) % 2 == 0 else seq
+                rules1 = [[BASIC[o][0], str(i), BASIC[o][1]] for i, o in enumerate(half)]
+                rules2 = [["x", "pre", "deny"]] * (len(seq) % 2) + [[BASIC[o][0], str(i), BASIC[o][1]] for i, o in enumerate(reversed(seq))]
                 jobs.append((k1, k2, rules1, rules2))
     lines = []
     for k1, k2, r1, r2 in jobs:
@@ -256,6 +258,111 @@ def run_context_stream(ctx, res, want, maxlen):
                 break
 
 
+# ---------------------------------------------------------------- eval() matchers under in-place policy edits
+
+TRUE_TAG = "r.k == r.k"
+FALSE_TAG = "r.k != r.k"
+
+
+def _eval_script_run(kind, script):
+    """execute a script of ('add', rule) / ('remove', rule) / ('update', old, new) / ('enforce',) on ONE enforcer;
+    returns [(policy at that moment, enforce_ex answer)] for every 'enforce'"""
+    casbin = common.use_repo()
+    m = casbin.Enforcer.new_model(text=model_text(kind, True, True))
+    e = casbin.Enforcer(m)
+    e.add_function("f", synth_f)
+    out = []
+    for op in script:
+        if op[0] == "add":
+            e.add_policy(*op[1])
+        elif op[0] == "remove":
+            e.remove_policy(*op[1])
+        elif op[0] == "update":
+            e.update_policy(list(op[1]), list(op[2]))
+        else:
+            pol = [list(r) for r in e.get_policy()]
+            try:
+                r = e.enforce_ex("k")
+                cur = e.model.model["p"]["p"].policy
+                idx = [i for i, rule in enumerate(cur) if rule is r[1]]
+                got = enc_bool(r[0]) + "," + (str(idx[0]) if idx else ("-" if not r[1] else "notinpolicy"))
+            except Exception as ex:  # noqa
+                got = f"!other:{type(ex).__name__}:{str(ex)[:50]}"
+            out.append((pol, got))
+    return out
+
+
+def _eval_lean_rules(pol):
+    # for the Lean side the stored expression is folded into the rule's first field: a false tag = no match
+    return [[r[0] if r[1].startswith(TRUE_TAG) else "F", str(i), r[2]] for i, r in enumerate(pol)]
+
+
+def run_eval_history_stream(ctx, res, want, n):
+    """m = eval(p.tag) && f(r.k, p.k): the sub-expression stored in each rule is part of the matcher.  The policy is edited
+    IN PLACE through the management API (remove a rule in the middle, update a rule's stored expression, add) between
+    requests; every answer must be the effect expression over the CURRENT rules"""
+    rng = ctx["rng"]
+    lines, checks = [], []
+    for _ in range(n):
+        kind = rng.choice(list(KINDS))
+        uid = [0]
+
+        def fresh_rule():
+            uid[0] += 1
+            o = rng.randrange(4)
+            # the tag must be unique per rule (rules are a set), so the stored expression carries a distinct literal
+            tag = (TRUE_TAG if rng.random() < 0.6 else FALSE_TAG) + f" || {uid[0]} == 0"
+            return [BASIC[o][0], tag, BASIC[o][1]]
+
+        pol = [fresh_rule() for _ in range(rng.randint(2, 5))]
+        script = [("add", r) for r in pol]
+        for _ in range(rng.randint(2, 5)):
+            script.append(("enforce",))
+            choice = rng.random()
+            if pol and choice < 0.4:
+                r = pol.pop(rng.randrange(max(1, len(pol) - 1)))
+                script.append(("remove", r))
+            elif pol and choice < 0.7:
+                k = rng.randrange(len(pol))
+                old = pol[k]
+                new = list(old)
+                new[1] = (FALSE_TAG if old[1].startswith(TRUE_TAG) else TRUE_TAG) + old[1][len(TRUE_TAG) if old[1].startswith(TRUE_TAG) else len(FALSE_TAG):]
+                pol[k] = new
+                script.append(("update", old, new))
+            else:
+                r = fresh_rule()
+                pol.append(r)
+                script.append(("add", r))
+        script.append(("enforce",))
+        outs = _eval_script_run(kind, script)
+        npos = [i for i, op in enumerate(script) if op[0] == "enforce"]
+        for (p_now, got), pos in zip(outs, npos):
+            if not p_now:
+                continue
+            lines.append(lean_line(dict(kind=kind, eftcol=True, has_eval=True, enabled=True, req=["k"], rules=_eval_lean_rules(p_now))))
+            checks.append((kind, p_now, got, script[: pos + 1]))
+    answers = run_driver("effect", lines)
+    for (kind, pol, got, script), ans in zip(checks, answers):
+        spec = parse_ms(ans)[1]
+        res.evaluations += 1
+        res.count("stream:eval-history")
+        res.nontrivial.add(hash(("evalh", kind, repr(script))))
+        exp = spec if want == "explain" else spec.split(",")[0]
+        obs = got if want == "explain" else (got if got.startswith("!") else got.split(",")[0])
+        if spec != "?" and obs != exp:
+            res.violation(
+                {
+                    "signature": f"eval-history:{kind}",
+                    "what": f"m = eval(p.tag) && f(r.k, p.k), effect {KINDS[kind]!r}, after in-place edits the policy is {pol}: enforce_ex('k') returned {got}; the effect expression over the current rules gives {spec}",
+                    "case": {"kind": kind, "script": [list(o) for o in script]},
+                    "model_text": model_text(kind, True, True),
+                    "expected": spec,
+                    "observed": got,
+                    "kind_of_case": "eval-history",
+                }
+            )
+
+
 def run(ctx, res, want):
     """want = 'decision' (C01) or 'explain' (C08): which part of the specification is judged"""
     # a broken proof/tie first gets the quick budget; the deep one only if that finds no failing input
@@ -263,6 +370,7 @@ def run(ctx, res, want):
     for maxlen, nrand in stages:
         _run_stage(ctx, res, want, maxlen, nrand)
         run_context_stream(ctx, res, want, 3 if maxlen <= 6 else 4)
+        run_eval_history_stream(ctx, res, want, 400 if maxlen <= 6 else 3000)
         if res.spec_violations:
             break
     return res
@@ -333,6 +441,12 @@ def _run_stage(ctx, res, want, maxlen, nrand):
 
 
 def replay(obj, want):
+    if obj.get("kind_of_case") == "eval-history":
+        c = obj["case"]
+        outs = _eval_script_run(c["kind"], [tuple(o) for o in c["script"]])
+        got = outs[-1][1]
+        exp = obj["expected"]
+        return (got != exp) if want == "explain" else (got.split(",")[0] != exp.split(",")[0])
     if obj.get("kind_of_case") == "context":
         r = common.Result()
         c = obj["case"]
